@@ -355,7 +355,7 @@ def check_c10(tier, seed):
     core.build_driver()
     quick = tier == "quick"
     feats = FEATURES if not quick else ["metadata", "input_redeemer", "mint", "mint_redeemer", "burn_same", "burn_other_asset",
-                                        "burn_all", "optional_empty", "reference_twice", "signers", "signers_dup", "signers_apart", "collateral",
+                                        "burn_all", "optional_empty", "reference", "reference_twice", "signers", "signers_dup", "signers_apart", "collateral",
                                         "donation", "plutus_witness", "plutus_witness_v2", "native_witness", "publish_script", "vote_deleg", "witness_more"]
     cases = gen_ledger(rep, "c10", "c10_mc", features=feats, workers=6 if quick else 12)
     rep.exhaustive = True
